@@ -155,7 +155,9 @@ static sqfs_object_t *data_reader_copy(const sqfs_object_t *obj)
 		goto fail_ftbl;
 
 	if (data->data_block != NULL) {
-		copy->data_block = malloc(data->data_blk_size);
+		/* readers rely on the cached block being a full block_size
+		   buffer, whatever amount of data the block unpacked to */
+		copy->data_block = alloc_array(1, data->block_size);
 		if (copy->data_block == NULL)
 			goto fail_dblk;
 
